@@ -6,5 +6,6 @@ def main (args : List String) : IO UInt32 := do
   match args with
   | ["fifo"] => Fifo.Drv.main; return 0
   | ["afifo"] => AFifo.Drv.main; return 0
+  | ["afifostale"] => AFifo.Drv.mainStale; return 0
   | ["buffer"] => Buffer.Drv.main; return 0
   | _ => IO.eprintln s!"usage: drv <model>   (models: fifo)"; return 2
